@@ -16,7 +16,7 @@ from .sorts import NONE, TBool, TInt, TNone, TReal, TStr, TVal, V, mk_bool, mk_i
 BUILTINS = {
     "len", "int", "str", "float", "bool", "min", "max", "abs", "any", "all", "sum", "isinstance", "list", "set", "dict",
     "tuple", "sorted", "zip", "enumerate", "range", "next", "iter", "cast", "type", "id", "repr", "round", "frozenset",
-    "reversed", "callable", "hasattr", "print", "parses_int", "cmp_to_key",
+    "reversed", "callable", "hasattr", "print", "parses_int", "cmp_to_key", "divmod",
 }
 
 
@@ -300,6 +300,11 @@ def binop(it, op, a, b, node=None):
         return it.call_named(q, kind, [a, b], {}, node)
     if not (isinstance(a, V) and isinstance(b, V)):
         raise OutOfSubset(f"binary op on {a!r}, {b!r}")
+    # arithmetic on an Optional operand: allowed when the path condition excludes None (a None operand would be a TypeError)
+    if isinstance(a.sort, S.TOpt) and a.sort.inner in (TInt, TReal):
+        a = it.coerce(a, a.sort.inner)
+    if isinstance(b.sort, S.TOpt) and b.sort.inner in (TInt, TReal):
+        b = it.coerce(b, b.sort.inner)
     if a.sort is TStr and b.sort is TStr and isinstance(op, ast.Add):
         return s_concat(it, a, b)
     if isinstance(a.sort, S.TList) and isinstance(op, ast.Add):
@@ -912,6 +917,11 @@ def call_builtin(it, name, args, kwargs, node):
                 return mk_int(z3.StrToInt(a.t))
             return mk_int(it.eng.ufunc("str_toint", S.StrAbs, z3.IntSort())(a.t))
         raise OutOfSubset(f"int() of {a.sort}")
+    if name == "divmod":
+        a, b = it.coerce(args[0], TInt), it.coerce(args[1], TInt)
+        q = binop(it, ast.FloorDiv(), a, b, node)
+        r = binop(it, ast.Mod(), a, b, node)
+        return S.TTuple([TInt, TInt]).make([q, r])
     if name == "cmp_to_key":
         return ("cmp_to_key", args[0])
     if name == "parses_int":
@@ -924,6 +934,7 @@ def call_builtin(it, name, args, kwargs, node):
         return mk_bool(it.truthy(args[0]))
     if name in ("min", "max"):
         if len(args) == 2:
+            args = [x.sort.payload(x) if isinstance(x, V) and isinstance(x.sort, S.TOpt) else x for x in args]  # A-TYPES
             a, b = it.unify(*args)
             c = a.t <= b.t if name == "min" else a.t >= b.t
             return a.sort.ite(c, a, b)
